@@ -30,6 +30,30 @@ def _errors_new(X, ins, argv):
     return [new_error(X)]
 
 
+@ext('(*bufio.Reader).ReadLine')
+def _bufio_readline(X, ins, argv):
+    """trusted (bufio documentation: "The returned buffer is only valid until the next call to ReadLine"): the line is a
+    slice of the reader's internal buffer, not storage made for the caller.  The buffer is allocated with the reader; when
+    the function under verification receives the reader as a parameter it is therefore older than the call being verified
+    (never `fresh_arr`).  When the reader is not a parameter nothing is said about the age of the buffer."""
+    w = X.w
+    a = w.fresh('rlbuf', I)
+    n = w.fresh('rllen', I)
+    X.hyp(n >= 0)
+    X.hyp(a >= 0)
+    X.hyp(a <= X.heap.get(('alloc', 'arr')))
+    fn_ = X.w.prog.funcs.get(X.V.fnkey) or {}
+    if X.top and any(p_.get('type') == '*bufio.Reader' for p_ in fn_.get('params', [])):
+        X.hyp(a <= X.top_entry_heap().get(('alloc', 'arr')))
+    line = w.Slice.mk_slice(a, 0, n, w.fresh('rlcap', I))
+    isprefix = w.fresh('rlprefix', z3.BoolSort())
+    err = w.fresh('rlerr', w.sort('error'))
+    from .calls import well_typed
+    for f in well_typed(X.V, X.heap, err, 'error'):
+        X.hyp(f)
+    return [line, isprefix, err]
+
+
 @ext('fmt.Sprintf', 'fmt.Sprint')
 def _sprintf(X, ins, argv):
     return [X.w.fresh('sprintf', X.w.Str)]
